@@ -56,6 +56,13 @@ let nfail = ref 0
 let stats : (string, int) Hashtbl.t = Hashtbl.create 32
 let bump ?(by = 1) k = Hashtbl.replace stats k (by + (try Hashtbl.find stats k with Not_found -> 0))
 let inv_cache : (string, bool) Hashtbl.t = Hashtbl.create 64
+let table_extra : (int, n * n) Hashtbl.t = Hashtbl.create 64      (* table id -> created_at (ns), file size *)
+let table_blob_bytes : (int, n) Hashtbl.t = Hashtbl.create 64     (* table id -> referenced on-disk blob bytes *)
+let version_blob_total : (string, n) Hashtbl.t = Hashtbl.create 16 (* version id -> sum of compressed bytes of its blob files *)
+let now_secs = ref N0
+let verdicts : (string, string) Hashtbl.t = Hashtbl.create 8   (* key hex -> verdict code *)
+let pending_f : (string * string * string) list ref = ref []      (* filter calls of the current op: key, value, verdict *)
+let cfilter = ref false
 let hp_before_reopen : string option ref = ref None
 let reopen_expect : (int * int * entry list) list list list option ref = ref None
 let last_hp = ref "-"
@@ -233,7 +240,26 @@ let check_step_model ~(wm : n) (pre : superversion) (post : superversion) =
     let inputs = List.filter (fun t -> List.mem (int_of_n t.tid) removed) (all_tables pre.ver) in
     let input = merge_sorted (List.map (fun t -> t.ents) inputs) in
     let evict = (dest = 6) in
-    let (out, _) = run_stream wm evict no_filter input in
+    let model_calls = ref [] in
+    let flt (e : entry) : verdict =
+      let kh = hex_of_bytes e.ukey in
+      let v = (try Hashtbl.find verdicts kh with Not_found -> "k") in
+      model_calls := (kh, hex_of_bytes e.val0, v) :: !model_calls;
+      if v = "k" then Keep
+      else if v = "x" then Replace (Tomb, [])
+      else if v = "w" then Replace (WeakTomb, [])
+      else if v = "d" then Drop
+      else Replace (Value, bytes_of_hex (String.sub v 2 (String.length v - 2))) in
+    let (out, _) = run_stream wm evict (if !cfilter then flt else no_filter) input in
+    if !cfilter then begin
+      bump "filtered_merges";
+      let impl_calls = List.rev !pending_f in
+      let mc = List.rev !model_calls in
+      if mc <> impl_calls then
+        drift "filter-calls" (Printf.sprintf "model=%d impl=%d calls; first model=[%s]" (List.length mc) (List.length impl_calls)
+                                (match mc with (a, b, c) :: _ -> a ^ " " ^ b ^ " " ^ c | [] -> ""))
+      else bump "filter_calls_agree"
+    end;
     if not (entries_eq out out_impl) then
       drift "merge-stream" (Printf.sprintf "dest=%d evict=%b model=%d impl=%d entries" dest evict (List.length out) (List.length out_impl))
     else bump "merge_stream_agree";
@@ -306,12 +332,78 @@ let apply_destructive_op (pre : superversion) (post : superversion) =
                       fail "drop-outside" (Printf.sprintf "table=%d key=%s outside the dropped range" (int_of_n t.tid) (hex_of_bytes e.ukey))) t.ents) removed;
     if removed <> [] && not changed then fail "drop-nosv" "tables vanished without a new version";
     rebase_keys (List.concat_map (fun t -> List.map (fun e -> e.ukey) t.ents) removed)
-  | "fifo" :: _ ->
+  | "fifo" :: limit :: ttl :: _ ->
     let post_ids = table_ids post in
     let removed = List.filter (fun t -> not (List.mem (int_of_n t.tid) post_ids)) (all_tables pre.ver) in
     if removed <> [] then bump "fifo_effective";
+    bump "fifo_ops";
+    (* the tables FIFO looks at: level 0 *)
+    let l0 = (match pre.ver.levels with l :: _ -> List.concat l | [] -> []) in
+    let info t =
+      let (created, size) = (try Hashtbl.find table_extra (int_of_n t.tid) with Not_found -> (N0, N0)) in
+      let blob = (try Hashtbl.find table_blob_bytes (int_of_n t.tid) with Not_found -> N0) in
+      { f_id = t.tid; f_created = created; f_size = size; f_blob = blob } in
+    let infos = List.map info l0 in
+    let limit_n = n_of_string limit in
+    let ttl_n = if ttl = "-" then None else Some (n_of_string ttl) in
+    let now_ns = N.mul !now_secs (n_of_string "1000000000") in
+    let blob_total = (try Hashtbl.find version_blob_total (string_of_n pre.ver.vid) with Not_found -> N0) in
+    let removed_ids = List.sort compare (List.map (fun t -> int_of_n t.tid) removed) in
+    (* (1) the property itself, decided directly on the real outcome *)
+    let cutoff = (match ttl_n with Some s when not (N.eqb s N0) -> Some (N.sub now_ns (N.mul s (n_of_string "1000000000"))) | _ -> None) in
+    let expired f = (match cutoff with Some c -> N.leb f.f_created c | None -> false) in
+    let is_removed f = List.mem (int_of_n f.f_id) removed_ids in
+    List.iter (fun t -> if not (List.exists (fun l -> N.eqb l.tid t.tid) l0) then
+                  fail "fifo-deeper-level" (Printf.sprintf "table %d removed from a level below L0" (int_of_n t.tid))) removed;
+    List.iter (fun f -> if expired f && not (is_removed f) then
+                  fail "fifo-expired-kept" (Printf.sprintf "table %d is older than the TTL but was retained" (int_of_n f.f_id))) infos;
+    List.iter (fun r -> if is_removed r && not (expired r) then
+                  List.iter (fun t -> if not (is_removed t) && N.ltb t.f_created r.f_created then
+                                fail "fifo-not-oldest" (Printf.sprintf "removed table %d (created %s) is newer than retained table %d (created %s)"
+                                                         (int_of_n r.f_id) (string_of_n r.f_created) (int_of_n t.f_id) (string_of_n t.f_created))) infos) infos;
+    let total = List.fold_left (fun a f -> N.add a f.f_size) blob_total infos in
+    if N.leb total limit_n && not (List.exists expired infos) && removed <> [] then
+      fail "fifo-within-limits" (Printf.sprintf "tree within limit (%s <= %s) and TTL, yet %d tables were removed" (string_of_n total) limit (List.length removed));
+    (* (2) model agreement: the extracted selection function *)
+    let want = List.sort compare (List.map int_of_n (fifo_choose_full limit_n ttl_n now_ns blob_total infos)) in
+    if want <> removed_ids then
+      drift "model-fifo" (Printf.sprintf "impl=[%s] model=[%s]" (String.concat "," (List.map string_of_int removed_ids)) (String.concat "," (List.map string_of_int want)))
+    else bump "fifo_model_agree";
     rebase_keys (List.concat_map (fun t -> List.map (fun e -> e.ukey) t.ents) removed)
   | _ -> ()
+
+(* ---------- compaction filter verdicts (C17) ----------
+   Each call the real filter logged (key, value shown, verdict returned) is applied to the
+   ordered-map history exactly as the property words it: the examined entry = the newest
+   not-yet-processed alive non-tombstone write of that key with that value; Keep: nothing;
+   ReplaceValue v': same key and seqno now carry v'; Remove / RemoveWeak: a (weak) tombstone
+   at that seqno; Destroy: the entry is gone. All of it only for snapshots above the
+   compaction's version seqno g. *)
+let apply_filter_calls (pre : superversion) (post : superversion) =
+  let calls = List.rev !pending_f in
+  pending_f := [];
+  if calls <> [] && not (N.eqb pre.ver.vid post.ver.vid) then begin
+    let g = post.sv_seq in
+    let processed : (hent) list ref = ref [] in
+    List.iter (fun (kh, vh, verdict) ->
+        let k = bytes_of_hex kh and v = bytes_of_hex vh in
+        let cands = List.filter (fun h -> h.dead = None && (match h.born with None -> true | Some b -> not (N.eqb b g)) && key_eqb h.e.ukey k
+                                          && not (is_tomb h.e) && list_N_eqb h.e.val0 v && not (List.memq h !processed)) !hist in
+        let best = List.fold_left (fun acc h -> match acc with None -> Some h | Some b -> if N.ltb b.e.seq h.e.seq then Some h else acc) None cands in
+        match best with
+        | None -> fail "filter-unknown-item" (Printf.sprintf "filter was shown key=%s value=%s which matches no live write" kh vh)
+        | Some h ->
+          processed := h :: !processed;
+          let repl ty value = hist := { e = { h.e with ty; val0 = value }; born = Some g; dead = None } :: !hist in
+          if verdict = "k" then ()
+          else begin
+            h.dead <- Some g;
+            if verdict = "x" then repl Tomb []
+            else if verdict = "w" then repl WeakTomb []
+            else if verdict = "d" then ()
+            else repl Value (bytes_of_hex (String.sub verdict 2 (String.length verdict - 2)))
+          end) calls
+  end
 
 (* ---------- trace interpreter ---------- *)
 let () =
@@ -348,7 +440,7 @@ let () =
     incr i;
     let t = String.split_on_char ' ' line in
     (match t with
-     | "C" :: _ -> ()
+     | "C" :: rest -> cfilter := List.mem "cfilter=1" rest
      | "H" :: rest ->
        incr op_idx;
        op_text := String.concat " " rest;
@@ -372,15 +464,17 @@ let () =
           Hashtbl.reset tables; Hashtbl.reset mts; Hashtbl.reset inv_cache;
           Hashtbl.reset snaps;
           bump "reopens"
-        | _ -> ())
+        | [ "verdict"; k; v ] -> Hashtbl.replace verdicts k v
+        | _ -> ());
+       pending_f := []
      | [ "W"; k; s; ty; v ] ->
        bump "writes";
        hist := { e = { ukey = bytes_of_hex k; seq = n_of_string s; ty = ty_of_code ty; val0 = bytes_of_hex v }; born = None; dead = None } :: !hist
      | [ "IW"; k; ty; v ] -> pending_ingest := (bytes_of_hex k, ty_of_code ty, bytes_of_hex v) :: !pending_ingest
      | [ "WM"; w ] -> wm := n_of_string w
-     | "NOW" :: _ -> ()
+     | [ "NOW"; secs ] -> now_secs := n_of_string secs
      | "SKIP" :: _ -> bump "skipped_moves"
-     | "F" :: _ -> bump "filter_calls"
+     | [ "F"; k; v; verdict ] -> bump "filter_calls"; pending_f := (k, v, verdict) :: !pending_f
      | "R" :: "ok" :: _ -> ()
      | "R" :: "experr" :: _ -> bump "expected_errors"
      | "R" :: "err" :: what :: rest -> fail "err" (Printf.sprintf "what=%s %s" what (String.concat " " rest))
@@ -391,8 +485,10 @@ let () =
      | "M" :: id :: cnt :: _ ->
        let ents = read_entries (int_of_string cnt) in
        Hashtbl.replace mts (int_of_string id) ents
-     | "T" :: id :: g :: slo :: shi :: ni :: nt :: nw :: kmin :: kmax :: _created :: _size :: _hi :: cnt :: flags ->
+     | "T" :: id :: g :: slo :: shi :: ni :: nt :: nw :: kmin :: kmax :: created :: size :: _hi :: cnt :: flags ->
        let ents = read_entries (int_of_string cnt) in
+       Hashtbl.replace table_extra (int_of_string id) (n_of_string created, n_of_string size);
+       Hashtbl.remove table_blob_bytes (int_of_string id);
        let tb = { tid = n_of_string id; gseq = n_of_string g; ents; kmin = bytes_of_hex kmin; kmax = bytes_of_hex kmax;
                   slo = n_of_string slo; shi = n_of_string shi; n_items = n_of_string ni; n_tomb = n_of_string nt; n_weak = n_of_string nw } in
        Hashtbl.replace tables (int_of_string id) tb;
@@ -437,7 +533,8 @@ let () =
        (match latest !cur, latest svs with
         | Some pre, Some post when !op_idx >= 0 ->
           (try check_step_model ~wm:!wm pre post with Not_found -> ());
-          apply_destructive_op pre post
+          apply_destructive_op pre post;
+          apply_filter_calls pre post
         | _ -> ());
        (* reopen restores exactly the flushed state: same levels/runs/tables, same global
           seqnos, same entries; memtables empty; one superversion *)
@@ -458,8 +555,15 @@ let () =
        check_dump ~hp:(get "hp") ~hm:(get "hm") ~hs:(get "hs") svs;
        cur := svs
      | "FILES" :: _ -> ()
-     | "L" :: _ -> ()
-     | "B" :: _ -> bump "blob_dumps"
+     | [ "L"; tid; links ] ->
+       let sum = List.fold_left (fun acc l -> match String.split_on_char ':' l with
+           | [ _; _; _; d ] -> N.add acc (n_of_string d) | _ -> acc) N0 (String.split_on_char ',' links) in
+       Hashtbl.replace table_blob_bytes (int_of_string tid) sum
+     | [ "B"; vid; files; _gc ] ->
+       bump "blob_dumps";
+       let tot = if files = "-" then N0 else List.fold_left (fun acc l -> match String.split_on_char ':' l with
+           | [ _; _; c; _ ] -> N.add acc (n_of_string c) | _ -> acc) N0 (String.split_on_char ',' files) in
+       Hashtbl.replace version_blob_total vid tot
      | "BS" :: _ -> ()
      | [ "RESOLVEFAIL"; vid; tid; k; sq ] -> fail "resolve" (Printf.sprintf "vid=%s table=%s key=%s seq=%s" vid tid k sq)
      | "O" :: "get" :: k :: s :: res :: _contains :: _size :: [] ->
